@@ -197,3 +197,76 @@ func isNamed(r *core.Run, t types.Type, short, name string) bool {
 	want := r.P.NamedType(short, name)
 	return want != nil && n.Obj() == want.Obj()
 }
+
+// handlerRoots are the HTTP entry points: the router, the middleware closures
+// and the CORS wrapper.
+func handlerRoots(r *core.Run) []*ssa.Function {
+	var roots []*ssa.Function
+	for _, n := range []string{
+		"gofakes3.(*GoFakeS3).routeBase",
+		"gofakes3.(*GoFakeS3).timeSkewMiddleware",
+		"gofakes3.(*GoFakeS3).hostBucketMiddleware",
+		"gofakes3.(*GoFakeS3).hostBucketBaseMiddleware",
+		"gofakes3.(*withCORS).ServeHTTP",
+		"gofakes3.(*GoFakeS3).Server",
+	} {
+		if f := mustFunc(r, n); f != nil {
+			roots = append(roots, core.Closures(f)...)
+		}
+	}
+	return roots
+}
+
+// reachableFrom computes the repo functions reachable from roots in the VTA
+// call graph; synthetic wrappers are traversed transparently and the closures
+// created by a reachable function are reachable.
+func reachableFrom(r *core.Run, roots []*ssa.Function) map[*ssa.Function]bool {
+	cg := r.P.CallGraph()
+	seen := map[*ssa.Function]bool{}
+	out := map[*ssa.Function]bool{}
+	var work []*ssa.Function
+	push := func(f *ssa.Function) {
+		if f != nil && !seen[f] {
+			seen[f] = true
+			work = append(work, f)
+		}
+	}
+	for _, f := range roots {
+		push(f)
+	}
+	for len(work) > 0 {
+		f := work[len(work)-1]
+		work = work[:len(work)-1]
+		isRepo := r.P.IsRepo(f)
+		isWrapper := f.Synthetic != "" && r.P.PkgShort(f) != ""
+		if !isRepo && !isWrapper {
+			continue // do not walk through library code
+		}
+		if isRepo {
+			out[f] = true
+			for _, a := range f.AnonFuncs {
+				push(a)
+			}
+			// a repo type converted to an interface here may have its methods
+			// called by library code (io.ReadFull → Read, xml → MarshalXML ...)
+			core.Instrs(f, func(in ssa.Instruction) {
+				mi, ok := in.(*ssa.MakeInterface)
+				if !ok {
+					return
+				}
+				ms := r.P.SSA.MethodSets.MethodSet(mi.X.Type())
+				for i := 0; i < ms.Len(); i++ {
+					if m := r.P.SSA.MethodValue(ms.At(i)); m != nil && r.P.PkgShort(m) != "" {
+						push(m)
+					}
+				}
+			})
+		}
+		if n := cg.Nodes[f]; n != nil {
+			for _, e := range n.Out {
+				push(e.Callee.Func)
+			}
+		}
+	}
+	return out
+}
